@@ -38,6 +38,11 @@ func TestC08(t *testing.T) {
 					enums[info.Type] = info.Values
 				}
 			}
+			if rapid.IntRange(0, 2).Draw(rt, "enum-same") == 0 {
+				for _, info := range b.EnumSame(true) {
+					enums[info.Type] = info.Values
+				}
+			}
 			b.EnumWrappers()
 			b.FinishEnums()
 			b.Finish()
@@ -64,6 +69,11 @@ func TestC08(t *testing.T) {
 				neg.NoUnexported = s.Open("F-ENUM-UNEXPORTED")
 				neg.Negative = rapid.IntRange(0, 3).Draw(rt, "negative") > 0
 				b.EnumProgram(neg)
+				if !o.SourcesInConv && rapid.IntRange(0, 3).Draw(rt, "enum-same") == 0 {
+					// (with the sources in the converter package a target struct holding the
+					// source enum would make the packages import each other)
+					b.EnumSame(false)
+				}
 				b.EnumWrappers()
 				b.FinishEnums()
 				b.Finish()
